@@ -13,8 +13,16 @@ package main
 //     the static-analysis helpers, Body.Content/PartialContent,
 //     dynblock.Expand, hcldec.Decode/Variables;
 //   - DIRECT ORACLE: every result (value via hv.DumpVal, diagnostics) must
-//     equal the result of the same call made alone beforehand
+//     equal the result of the same call made alone
 //     (Failure kinds "concurrent-result-differs", "panic");
+//   - FIRST-USE discipline (cold.go): the solo reference results come from a
+//     SEPARATE parse of the same source; the goroutines, released together by
+//     a barrier, work on a tree nothing has used since the parser returned it
+//     (plus further rounds, each on its own fresh parse), so that state a
+//     node initialises lazily on its first use is initialised concurrently;
+//     JSON configurations in every encoding form (bodies / label levels as
+//     arrays of objects, arrays of bodies, nested, wide) with content
+//     extraction, hcldec, gohcl and dynblock calls (kind json-forms);
 //   - records, through the hook in hclsyntax/anon_hook_verif.go, every critical
 //     section of every AnonSymbolExpr (events are taken while valuesLock is
 //     held, so their order is the lock order), replays each trace in Go
@@ -63,6 +71,10 @@ type item struct {
 	src  string
 	ops  []opFn
 	feat map[string]int
+	// fresh parses src again and returns the same calls on the NEW tree (nil when
+	// that fails): the concurrent phases run on trees nothing has used before,
+	// the solo reference results come from a different parse (cold.go)
+	fresh func() []opFn
 }
 
 func dumpDiags(diags hcl.Diagnostics) string {
@@ -227,6 +239,19 @@ func bodyOps(shared hcl.Body, dyn bool) []opFn {
 
 // mkItem parses src according to kind. Returns nil when nothing usable came out.
 func mkItem(kind, src string) *item {
+	it := mkItemOnce(kind, src)
+	if it != nil {
+		it.fresh = func() []opFn {
+			if again := mkItemOnce(kind, src); again != nil {
+				return again.ops
+			}
+			return nil
+		}
+	}
+	return it
+}
+
+func mkItemOnce(kind, src string) *item {
 	it := &item{kind: kind, src: src, feat: map[string]int{}}
 	switch kind {
 	case "expr-native":
@@ -577,7 +602,19 @@ func (rn *runner) runRound(it *item, rc roundCfg) {
 	var mu sync.Mutex
 	var diffs []diff
 	gidOf := make([]int64, rc.G)
-	start := make(chan struct{})
+	// FIRST-USE discipline (cold.go): the goroutines work on a tree parsed just
+	// now, which nothing has used yet; solo[][] above came from another parse of
+	// the same source. A share of the rounds keeps the warmed-up tree.
+	ops := it.ops
+	if it.fresh != nil && (raceEnabled || rn.r.Chance(0.85)) {
+		if f := it.fresh(); f != nil && len(f) == len(it.ops) {
+			ops = f
+			rep.Hist("phase:concurrent-on-fresh-parse")
+		}
+	} else {
+		rep.Hist("phase:concurrent-on-warmed-up-tree")
+	}
+	start := newBarrier(rc.G)
 	var wg sync.WaitGroup
 	seeds := make([]uint64, rc.G)
 	for g := range seeds {
@@ -589,9 +626,9 @@ func (rn *runner) runRound(it *item, rc roundCfg) {
 			defer wg.Done()
 			gidOf[g] = hclsyntax.VerifGoroutineID()
 			lr := hv.NewRng(seeds[g], 1700+uint64(g))
-			<-start
+			start.arrive()
 			for rp := 0; rp < rc.reps; rp++ {
-				for k, op := range it.ops {
+				for k, op := range ops {
 					if lr.Chance(0.3) {
 						runtime.Gosched()
 					}
@@ -605,9 +642,21 @@ func (rn *runner) runRound(it *item, rc roundCfg) {
 			}
 		}(g)
 	}
-	close(start)
+	start.release()
 	wg.Wait()
 	hclsyntax.VerifAnonTrace(false)
+	// more first-use rounds, each on its own fresh parse (not traced)
+	if it.fresh != nil {
+		names := make([]string, len(it.ops))
+		for k, op := range it.ops {
+			names[k] = op.name
+		}
+		nb := 2
+		if raceEnabled {
+			nb = 0 // the concurrent phase above already ran on a fresh parse; the detector needs no repetition
+		}
+		rn.coldBursts(it.fresh, nb, rc.G, evalCtx, solo, stable, names, it.input(rc))
+	}
 	hclsyntax.VerifAnonSetYield(0)
 
 	rep.Histogram["calls:concurrent"] += rc.G * rc.reps * len(it.ops)
@@ -655,6 +704,19 @@ func (rn *runner) randomRound() roundCfg {
 	}
 }
 
+// coldRoundCfg: a round configuration for the first-use workloads (at least 4
+// goroutines: the point is that several make the FIRST call at once).
+func (rn *runner) coldRoundCfg() roundCfg {
+	rc := rn.randomRound()
+	if rc.G < 4 {
+		rc.G += 4
+	}
+	if rc.topo == "nilctx" {
+		rc.topo = "child"
+	}
+	return rc
+}
+
 // parseReplay reads "#c17 kind=K ..." + source as written by item.input.
 func parseReplay(b []byte) (kind, src string) {
 	s := string(b)
@@ -697,6 +759,7 @@ func runC17Workload(cfg *hv.RunCfg) error {
 	rep.Rule = "one case = the complete, lock-ordered trace of ONE AnonSymbolExpr during one round in which G goroutines (2..16, own contexts, shared parents) evaluate the same parsed object concurrently (plus some single-goroutine traces of the preceding solo phase); items: hand corpus of splat expressions covering every path of SplatExpr.Value, grammar-directed splat expressions (attr/full/nested splats inside for, conditional, template, call, index key), a mutated stream, the same in JSON syntax, native/JSON bodies decoded with hcldec, dynamic-block expansion; non-trivial = some goroutine executed a critical section while another goroutine's value was in the table; distinct by SHA-256 of the trace"
 	rep.Notes = append(rep.Notes,
 		"every round also runs the direct oracle: each concurrent call's result equals the result of the same call made alone",
+		"first-use discipline: the solo reference comes from a separate parse of the same source; the concurrent phases run on freshly parsed trees whose very first use is concurrent (goroutines released by a barrier), see histogram keys phase:*, first-use:*, forms:*",
 		"NOT covered: Go memory-model data races cannot be exhibited by the Gallina model; see sub-command c17race (race detector, supporting evidence only)",
 		fmt.Sprintf("race detector compiled in: %v", raceEnabled))
 	rn := &runner{rep: rep, r: hv.NewRng(cfg.Seed, 17)}
@@ -710,6 +773,22 @@ func runC17Workload(cfg *hv.RunCfg) error {
 			return err
 		}
 		kind, src := parseReplay(b)
+		if kind == "json-forms" {
+			// first-use workload: every round parses the source afresh
+			w := formsWorkload(src, "", nil)
+			if w.build() == nil {
+				return fmt.Errorf("replay input does not parse as JSON configuration")
+			}
+			for i := 0; i < 20; i++ {
+				rn.coldRounds(w, rn.coldRoundCfg(), 4*formsRounds(src))
+			}
+			names, err := rn.cf.Flush(150)
+			if err != nil {
+				return err
+			}
+			rep.CaseFiles = names
+			return rep.Write(cfg.Out)
+		}
 		it := mkItem(kind, src)
 		if it == nil {
 			return fmt.Errorf("replay input does not parse as %s", kind)
@@ -756,6 +835,19 @@ func runC17Workload(cfg *hv.RunCfg) error {
 				}
 			}
 		}
+		// JSON encoding forms, first use concurrent (cold.go): hand corpus, then
+		// generated ones (this part does not depend on -n: c17race runs it too)
+		for _, s := range formsCorpus {
+			rn.coldRounds(formsWorkload(s, "", map[string]int{"forms:hand-corpus": 1}), rn.coldRoundCfg(), 2*formsRounds(s))
+		}
+		for i := 0; i < 16; i++ {
+			forceWide := 0
+			if i < 2 {
+				forceWide = i + 1 // one wide array-form body, one wide label array in every run
+			}
+			src, expect, feat := genJSONFormsW(rn.r, forceWide)
+			rn.coldRounds(formsWorkload(src, expect, feat), rn.coldRoundCfg(), formsRounds(src))
+		}
 		// content extraction with shared schemas, on fresh and remaining bodies
 		for _, base := range contentBases {
 			rn.contentRound(base, rn.randomRound())
@@ -772,7 +864,12 @@ func runC17Workload(cfg *hv.RunCfg) error {
 		for i := 0; i < cfg.N; i++ {
 			var it *item
 			var feat map[string]int
-			k := rn.r.Intn(23)
+			k := rn.r.Intn(26)
+			if k >= 23 {
+				src, expect, feat := genJSONForms(rn.r)
+				rn.coldRounds(formsWorkload(src, expect, feat), rn.coldRoundCfg(), formsRounds(src))
+				continue
+			}
 			if k >= 20 {
 				rn.contentRound(contentBases[rn.r.Intn(len(contentBases))], rn.randomRound())
 				continue
